@@ -11,39 +11,19 @@ import NGF.Model.HandlerVer
 import NGF.Proofs.Reload
 import NGF.Proofs.HandlerVer
 import NGF.Generated.ReloadFacts
+import NGF.Props.C12Apply
 
 namespace NGF.C12
 open NGF.Reload NGF.HandlerVer
 
 /-! ## 1. Reload -/
 
-/-- What must have been observed for `Reload(n)` to return nil. -/
-def Running (o : Oracle) (n : Int) : Prop :=
-  (∃ p, findMainProcess o = .ok p) ∧
-  ∃ prev, o.prevRead = .content prev ∧ o.kill = true ∧
-    ∃ i j, WaitWitness prev o.children o.versions o.budget n i j
-
 /-- `Reload(n) = nil` exactly when: the pid was found, the children file was read, the HUP was
 delivered, some later read of the children file differed from the pre-HUP content (all reads before
 it were unchanged and none failed), and then the version endpoint answered exactly `n` after only
 well-formed answers different from `n` — all within the deadline. -/
-theorem reload_ok_iff (o : Oracle) (n : Int) : (reload o n).res = none ↔ Running o n := by
-  unfold reload Running
-  cases hf : findMainProcess o with
-  | error e => simp
-  | ok p =>
-    cases hp : o.prevRead with
-    | err => simp
-    | content prev =>
-      cases hk : o.kill with
-      | false => simp
-      | true =>
-        simp only [Bool.not_true, Bool.false_eq_true, if_false]
-        rw [wait_ok_iff]
-        constructor
-        · rintro ⟨i, j, h⟩; exact ⟨⟨p, rfl⟩, prev, rfl, by simp, i, j, h⟩
-        · rintro ⟨_, prev', hpe, _, i, j, h⟩
-          cases hpe; exact ⟨i, j, h⟩
+theorem reload_ok_iff (o : Oracle) (n : Int) : (reload o n).res = none ↔ Running o n :=
+  reload_res_none_iff o n
 
 /-- The pid is found exactly when the pid file shows up within `PidFileTimeout` after only
 "does not exist" results (any other stat error aborts) and its content parses. -/
@@ -235,9 +215,9 @@ theorem reload_gets_configuration_version (plus : Bool) (s : H) (b : Batch) (v :
   ⟨(hstep_reloadVersion plus s b v h).1, (hstep_reloadVersion plus s b v h).2.2.2⟩
 
 example : cfgVersions (hrun false H.init
-    [⟨.clusterState, false, ⟨[], 0, .readErr, .err, false, [], [], 0⟩, true⟩,
-     ⟨.noChange, true, ⟨[], 0, .readErr, .err, false, [], [], 0⟩, true⟩,
-     ⟨.endpointsOnly, true, ⟨[], 0, .readErr, .err, false, [], [], 0⟩, true⟩]).2 = [1, 2] := by
+    [⟨.clusterState, 3, 1, .failed .io 1, ⟨[], 0, .readErr, .err, false, [], [], 0⟩, true⟩,
+     ⟨.noChange, 3, 1, .ok, ⟨[], 0, .readErr, .err, false, [], [], 0⟩, true⟩,
+     ⟨.endpointsOnly, 3, 1, .ok, ⟨[], 0, .readErr, .err, false, [], [], 0⟩, true⟩]).2 = [1, 2] := by
   decide
 
 /-! ### Known finding `C12:version_reuse_after_controller_restart`
@@ -259,7 +239,7 @@ the PREVIOUS process, which is 1 as well) is reported as successfully reloaded, 
 ready.  Reproduced on the real handler + Reload by harness/c12 `restartCase`. -/
 theorem restart_stale_master_accepted :
     let o : Oracle := ⟨[.present], 5, .pid 7, .content 1, true, [.content 3], [.ver 1], 5⟩
-    let r := hstep false H.init ⟨.clusterState, true, o, true⟩
+    let r := hstep false H.init ⟨.clusterState, 3, 1, .ok, o, true⟩
     r.2.err = false ∧ r.2.reloadVersion = some 1 ∧ r.1.ready = true ∧ r.1.lastErr = false := by
   decide
 
@@ -289,17 +269,17 @@ theorem programmed_implies_running (plus : Bool) (s : H) (b : Batch)
 /-- hypotheses of `programmed_implies_running` are satisfiable: third batch of a sequence, OSS -/
 example :
     let good (n : Int) : Oracle := ⟨[.present], 5, .pid 7, .content 1, true, [.content 1, .content 2], [.ver (n - 1), .ver n], 5⟩
-    let s := (hrun false H.init [⟨.clusterState, true, good 1, true⟩, ⟨.endpointsOnly, false, good 2, true⟩]).1
+    let s := (hrun false H.init [⟨.clusterState, 3, 1, .ok, good 1, true⟩, ⟨.endpointsOnly, 3, 1, .failed .io 1, good 2, true⟩]).1
     s.version = 2 ∧ s.lastErr = true ∧
-      (hstep false s ⟨.endpointsOnly, true, good 3, true⟩).2.err = false ∧
-      (hstep false s ⟨.endpointsOnly, true, good 3, true⟩).1.lastErr = false := by decide
+      (hstep false s ⟨.endpointsOnly, 3, 1, .ok, good 3, true⟩).2.err = false ∧
+      (hstep false s ⟨.endpointsOnly, 3, 1, .ok, good 3, true⟩).1.lastErr = false := by decide
 
 /-- Plus, endpoints only: no reload at all, the API result decides -/
 example :
     let o : Oracle := ⟨[], 0, .readErr, .err, false, [], [], 0⟩
-    (hstep true H.init ⟨.endpointsOnly, true, o, true⟩).2.reloadVersion = none ∧
-    (hstep true H.init ⟨.endpointsOnly, true, o, true⟩).2.err = false ∧
-    (hstep true H.init ⟨.endpointsOnly, true, o, false⟩).2.err = true := by decide
+    (hstep true H.init ⟨.endpointsOnly, 3, 1, .ok, o, true⟩).2.reloadVersion = none ∧
+    (hstep true H.init ⟨.endpointsOnly, 3, 1, .ok, o, true⟩).2.err = false ∧
+    (hstep true H.init ⟨.endpointsOnly, 3, 1, .ok, o, false⟩).2.err = true := by decide
 
 /-- Any failure to write, signal or verify (or of the Plus API) makes the batch fail — exactly. -/
 theorem failure_iff (plus : Bool) (s : H) (b : Batch) :
@@ -444,11 +424,11 @@ example :
     let good : Oracle := ⟨[.present], 5, .pid 7, .content 1, true, [.content 2], [.ver 2], 5⟩
     let bad : Oracle := ⟨[.present], 5, .pid 7, .content 1, false, [], [], 5⟩
     (hstates false H.init
-      [⟨.clusterState, true, bad, true⟩, ⟨.noChange, true, bad, true⟩,
-       ⟨.clusterState, true, good, true⟩]).map (·.ready) = [false, false, true] := by decide
+      [⟨.clusterState, 3, 1, .ok, bad, true⟩, ⟨.noChange, 3, 1, .ok, bad, true⟩,
+       ⟨.clusterState, 3, 1, .ok, good, true⟩]).map (·.ready) = [false, false, true] := by decide
 
 /-- first batch needs no change: ready at once -/
-example : (hrun true H.init [⟨.noChange, true, ⟨[], 0, .readErr, .err, false, [], [], 0⟩, true⟩]).1.ready
+example : (hrun true H.init [⟨.noChange, 3, 1, .ok, ⟨[], 0, .readErr, .err, false, [], [], 0⟩, true⟩]).1.ready
     = true := by decide
 
 /-! ## 6. Tie to the source: facts regenerated by the translator on every run -/
@@ -593,6 +573,22 @@ theorem handler_source_as_modelled :
       ["h.lock.RLock()", "defer h.lock.RUnlock()",
        "if !h.ready { return errors.New(\"nginx has not yet become ready to accept traffic\") }",
        "return nil"] := by
+  repeat' constructor
+
+/-- The apply transaction as modelled by `applyTx`: `ReplaceFiles`, `Reload`, `updateUpstreamServers`
+in this order; each error branch is taken on EVERY non-nil error (condition exactly `err != nil`, no
+class is exempt) and ends in `return`, so a `ReplaceFiles` error returns before `Reload`.  And the
+stored `latestReloadResult` is what the status writers are handed (`issued`). -/
+theorem apply_source_as_modelled :
+    Generated.Reload.updateNginxConfGuards =
+      ["h.cfg.nginxFileMgr.ReplaceFiles(files) | err != nil | return",
+       "h.cfg.nginxRuntimeMgr.Reload(ctx, conf.Version) | err != nil | return",
+       "h.updateUpstreamServers(conf) | err != nil | return"] ∧
+    Generated.Reload.latestReloadResultReads =
+      ["updateStatuses: status.PrepareRouteRequests",
+       "updateStatuses: status.PrepareGatewayRequests",
+       "nginxGatewayServiceUpsert: status.PrepareGatewayRequests",
+       "nginxGatewayServiceDelete: status.PrepareGatewayRequests"] := by
   repeat' constructor
 
 /-- `prepare_requests.go`: the three places where a reload error is appended (last, so that it
